@@ -382,13 +382,29 @@ impl ListenerRegistry {
         self.by_mid.get(mid).cloned()
     }
 
-    fn unique_by_pt(&self, pt: u8) -> Option<mpsc::Sender<(RtpPacket, SocketAddr)>> {
+    /// A route that belongs to a known media section (it registered a MID) is never
+    /// picked for a packet that names a DIFFERENT section: such a packet is dropped
+    /// rather than handed to the wrong receiver just because that one lists the
+    /// payload type or is the only provisional route.
+    fn section_matches(route: &ListenerRoute, packet_mid: Option<&str>) -> bool {
+        match (route.mid.as_deref(), packet_mid) {
+            (Some(route_mid), Some(packet_mid)) => route_mid == packet_mid,
+            _ => true,
+        }
+    }
+
+    fn unique_by_pt(
+        &self,
+        pt: u8,
+        packet_mid: Option<&str>,
+    ) -> Option<mpsc::Sender<(RtpPacket, SocketAddr)>> {
         let mut selected: Option<&mpsc::Sender<(RtpPacket, SocketAddr)>> = None;
 
         for route in self
             .routes
             .iter()
             .filter(|route| route.payload_types.contains(&pt))
+            .filter(|route| Self::section_matches(route, packet_mid))
         {
             if let Some(existing) = selected {
                 if !existing.same_channel(&route.tx) {
@@ -402,10 +418,18 @@ impl ListenerRegistry {
         selected.cloned()
     }
 
-    fn single_provisional(&self) -> Option<mpsc::Sender<(RtpPacket, SocketAddr)>> {
+    fn single_provisional(
+        &self,
+        packet_mid: Option<&str>,
+    ) -> Option<mpsc::Sender<(RtpPacket, SocketAddr)>> {
         let mut selected: Option<&mpsc::Sender<(RtpPacket, SocketAddr)>> = None;
 
-        for route in self.routes.iter().filter(|route| route.provisional) {
+        for route in self
+            .routes
+            .iter()
+            .filter(|route| route.provisional)
+            .filter(|route| Self::section_matches(route, packet_mid))
+        {
             if let Some(existing) = selected {
                 if !existing.same_channel(&route.tx) {
                     return None;
@@ -1118,13 +1142,17 @@ impl PacketReceiver for RtpTransport {
                     bind_ssrc = false;
                 }
 
+                let packet_mid = mid_bytes
+                    .as_ref()
+                    .and_then(|mid| std::str::from_utf8(mid).ok());
+
                 if selected.is_none() {
-                    selected = listeners.unique_by_pt(pt);
+                    selected = listeners.unique_by_pt(pt, packet_mid);
                     bind_ssrc = selected.is_some();
                 }
 
                 if selected.is_none() {
-                    selected = listeners.single_provisional();
+                    selected = listeners.single_provisional(packet_mid);
                     bind_ssrc = false;
                 }
 
